@@ -35,6 +35,7 @@ def run(ctx):
     ]
     typed = [["rpT"], ["rpTR"], ["rpT", "cbTy"], ["rpTR", "fbT"], ["fbT", "rpT"], ["rpT", "rpTR"]]
     jobs.append(dict(ctx=ctx, binary=binary, name="typed", stacks=typed, outs=seq.OUTS_TY, maxcalls=3 if quick else 4, execs=2, workers=4))
+    jobs.append(dict(ctx=ctx, binary=binary, name="wrapped", stacks=[["rpT"], ["rpTR"], ["rpTR", "cbTy"], ["fbT", "rpTR"]], outs=seq.OUTS_WR + [seq.out("R0", seq.J("TV", "E1"))], maxcalls=3, execs=1, workers=4))
     if not quick:      # longer scripts, one execution (5 outcomes ^ 6 invocations per unlimited policy)
         jobs.append(dict(ctx=ctx, binary=binary, name="single6", stacks=single, outs=OUTS, maxcalls=6, execs=1, workers=6))
     mism = seq.run_jobs(ctx, jobs, par=3)
